@@ -202,27 +202,37 @@ theorem input_to_first_wins (t1 t2 : String) (c : Conn) (h : c.inputTo = some t1
   unfold armInputTo; simp [h]
 
 /-- the line of a user with a pending input_to() goes to the callback only: neither process_input nor the command
-    parser see it (the trace of that step starts with the `t it` event of this user) -/
+    parser see it - the step is the callback, the re-validation and the prompt, nothing else -/
 theorem input_to_takes_the_line (rh : HookFn) (w : W) (cg : Oid) (id : Nat) (line tag : String) :
     (inputToCommand rh w cg id line tag).1 =
       (if (rh (emit (mapConn w id clearInputTo) (.tIt cg tag line)) cg (.it tag)).2 then
          (rh (emit (mapConn w id clearInputTo) (.tIt cg tag line)) cg (.it tag)).1
        else if (rh (emit (mapConn w id clearInputTo) (.tIt cg tag line)) cg (.it tag)).1.inter cg ≠ some id then
          (rh (emit (mapConn w id clearInputTo) (.tIt cg tag line)) cg (.it tag)).1
-       else promptStage (useConn (rh (emit (mapConn w id clearInputTo) (.tIt cg tag line)) cg (.it tag)).1 id) cg id) := by
+       else (promptStage rh (useConn (rh (emit (mapConn w id clearInputTo) (.tIt cg tag line)) cg (.it tag)).1 id)
+               cg id).1) := by
   unfold inputToCommand
   simp only []
   split
   · rfl
   · split <;> rfl
 
-/-- the prompt is suppressed while an input_to() is pending -/
-theorem no_prompt_while_input_to_pending (w : W) (cg : Oid) (id : Nat) (h : (inputToOf w id).isSome = true) :
-    promptStage w cg id = w := by
+/-- the prompt (and the write_prompt() apply) is suppressed while an input_to() is pending -/
+theorem no_prompt_while_input_to_pending (rh : HookFn) (w : W) (cg : Oid) (id : Nat)
+    (h : (inputToOf w id).isSome = true) : promptStage rh w cg id = (w, false) := by
   unfold promptStage
   split
   · rfl
   · simp [h]
+
+/-- after write_prompt() the record is used only when it is still this user's (IP_VALID): a write_prompt() that
+    disconnects or destructs its user makes print_prompt() return before flush_message (ip) -/
+theorem prompt_revalidates (rh : HookFn) (w : W) (cg : Oid) (id : Nat) (hm : cg ≠ .master)
+    (hi : (inputToOf w id).isSome = false) (he : (rh (emit w (.tPrompt cg)) cg .prompt).2 = false)
+    (hv : (rh (emit w (.tPrompt cg)) cg .prompt).1.inter cg ≠ some id) :
+    promptStage rh w cg id = ((rh (emit w (.tPrompt cg)) cg .prompt).1, false) := by
+  unfold promptStage
+  simp [hm, hi, he, hv]
 
 /-- **the object sweep, every restart:** look_for_objects_to_swap() - reset() and clean_up() of every due object, the
     walk restarted after every error, for every fuel - keeps the invariant, for every script oracle -/
